@@ -816,7 +816,7 @@ func (em *emitter) emitBuiltin(call *ast.Call, reg int8, dstType reflect.Type) {
 	case "delete":
 		mapp := em.emitExpr(args[0], em.typ(args[0]))
 		key := em.emitExpr(args[1], em.typ(args[1]))
-		em.fb.emitDelete(mapp, key)
+		em.fb.emitDelete(mapp, key, call.Pos())
 	case "len":
 		typ := em.typ(args[0])
 		s := em.emitExpr(args[0], typ)
